@@ -2,11 +2,12 @@
    Only ExtrOcamlBasic is used: N, positive and nat stay the extracted datatypes. *)
 From Coq Require Import Extraction ExtrOcamlBasic.
 From Snaps Require Import Base.Bytes Base.Lines Base.Dec Base.Assoc.
-From Snaps Require Import Model.Frame Model.PathModel Model.Mode Model.Api Model.Json Model.Difflib Model.Report Model.Natural Model.Clean.
+From Snaps Require Import Model.Frame Model.PathModel Model.Mode Model.Api Model.Json Model.Difflib Model.Report Model.Natural Model.Clean Model.Caller.
 
 Extraction Language OCaml.
 Extraction "model.ml" init_state step run get_prev add_entry update_entry escape unescape
   clean join dirname basename ext snapshot_path header
   valid snapshot_json set_path_text
   split_newlines get_opcodes grouped_opcodes pretty_diff_nocolor
-  clean_run natural_less sort_nat is_sorted_nat get_test_id.
+  clean_run natural_less sort_nat is_sorted_nat get_test_id
+  base_caller snapshot_path_gen.
